@@ -597,6 +597,11 @@ static Type *func_params(Token **rest, Token *tok, Type *ty) {
   Type *cur = &head;
   bool is_variadic = false;
 
+  // A parameter is in scope from the end of its declarator to the end
+  // of the parameter list (and, in a definition, of the function body),
+  // so that later parameters can use it: `int n, int a[n][n]`.
+  enter_scope();
+
   while (!equal(tok, ")")) {
     if (cur != &head)
       tok = skip(tok, ",");
@@ -613,7 +618,7 @@ static Type *func_params(Token **rest, Token *tok, Type *ty) {
 
     Token *name = ty2->name;
 
-    if (ty2->kind == TY_ARRAY) {
+    if (ty2->kind == TY_ARRAY || ty2->kind == TY_VLA) {
       // "array of T" is converted to "pointer to T" only in the parameter
       // context. For example, *argv[] is converted to **argv by this.
       Token *name_pos = ty2->name_pos;
@@ -630,7 +635,15 @@ static Type *func_params(Token **rest, Token *tok, Type *ty) {
     }
 
     cur = cur->next = copy_type(ty2);
+
+    if (name) {
+      Obj *var = new_var(get_ident(name), cur);
+      var->is_local = true;
+      cur->param_var = var;
+    }
   }
+
+  leave_scope();
 
   if (cur == &head)
     is_variadic = true;
@@ -3475,8 +3488,31 @@ static void create_param_lvars(Type *param) {
       error_tok(param->name_pos, "parameter name omitted");
     if (param->size < 0)
       error_tok(param->name, "parameter has incomplete type");
-    new_lvar(get_ident(param->name), param);
+
+    // The variable that was visible to the rest of the parameter list
+    // becomes the parameter itself.
+    Obj *var = param->param_var;
+    push_scope(var->name)->var = var;
+    var->next = locals;
+    locals = var;
   }
+}
+
+// A parameter such as `int (*a)[n]` or `int a[n][m]` points to
+// variable length arrays: their sizes are computed on entry.
+static Node *param_vla_sizes(Type *param, Token *tok) {
+  Node head = {};
+  Node *cur = &head;
+  for (; param; param = param->next) {
+    bool has_vla = false;
+    for (Type *t = param; t; t = t->base)
+      has_vla = has_vla || t->kind == TY_VLA;
+    if (has_vla) {
+      cur = cur->next = new_unary(ND_EXPR_STMT, compute_vla_size(param, tok), tok);
+      add_type(cur);
+    }
+  }
+  return head.next;
 }
 
 // This function matches gotos or labels-as-values with labels.
@@ -3595,7 +3631,15 @@ static Token *function(Token *tok, Type *basety, VarAttr *attr) {
   push_scope("__FUNCTION__")->var =
     new_string_literal(fn->name, array_of(ty_char, strlen(fn->name) + 1));
 
+  Node *vla_sizes = param_vla_sizes(ty->params, tok);
   fn->body = compound_stmt(&tok, tok);
+  if (vla_sizes) {
+    Node *last = vla_sizes;
+    while (last->next)
+      last = last->next;
+    last->next = fn->body->body;
+    fn->body->body = vla_sizes;
+  }
   fn->locals = locals;
   leave_scope();
   resolve_goto_labels();
